@@ -38,7 +38,7 @@ BOUNDS = {
                   copy='shapes 1x1, 1x2 over a 9-object alphabet (2x2: 5 objects) with Box(Box(Floor)), Box(Key), doors of 3 statuses; held item of the same alphabet',
                   history='question = getting_closer_shortest_path / raytracing on 3x3; intervening menu: 0..12 other layouts (>= 11 evict the cache), same layout with '
                           'another source, other ray origins and areas; symbolic choice of the sequence (length <= 2 from the menu; the eviction block asks 12 further layouts)'),
-    'thorough': dict(step='shapes up to 3x3, 41-object alphabet', observation='worlds up to 2x3', rewards='shapes <=3x3', copy='plus 2x3', history='sequence length <= 4'),
+    'thorough': dict(step='shapes up to 3x3, 42-object alphabet', observation='worlds up to 2x3 (2x3 over 4 objects)', rewards='shapes <=3x3', copy='plus 1x3, 3x1', history='sequence length <= 4'),
 }
 OUTSIDE = ('aliasing among cells the path never read rests on the LazyRows copy contract (pickle of plain lists is a deep copy): concrete Python, not a solver verdict; '
            'scanning rewards are covered on 2x2 (2x3) structured states only')
@@ -357,8 +357,9 @@ def obligations(tier):
     for fname in ('fully_transparent', 'partially_occluded', 'raytracing', 'stochastic_raytracing'):
         for (H, W) in ([(2, 2)] if q else [(2, 2), (2, 3)]):
             for area in ([Area((0, 0), (-1, 1))] if fname == 'stochastic_raytracing' else [Area((-1, 0), (-1, 1)), Area((-2, 0), (-1, 1))]):
-                obs.append(Obligation(f'observation-{fname}-{H}x{W}-view{area.height}x{area.width}', mk_observation(fname, H, W, area),
-                                      dict(function=fname, H=H, W=W, view=[area.height, area.width])))
+                sg = None if H * W <= 4 else [e for e in OBS6 if e[0] in ('Floor', 'Wall', 'Door(LOCKED,YELLOW)', 'Box(Floor)')]  # 6 cells: 4 objects
+                obs.append(Obligation(f'observation-{fname}-{H}x{W}-view{area.height}x{area.width}', mk_observation(fname, H, W, area, None, sg),
+                                      dict(function=fname, H=H, W=W, view=[area.height, area.width], alphabet=6 if sg is None else 4)))
         # a view that coincides with the whole grid for one pose (where a sub-grid could be the grid itself)
         from gym_gridverse.geometry import Orientation as _O
         for (H, W, area, pin) in [(1, 3, Area((0, 0), (-1, 1)), None), (2, 3, Area((-1, 0), (-1, 1)), (1, 1, _O.F))] + ([] if q else [(3, 3, Area((-2, 0), (-1, 1)), (2, 1, _O.F))]):
@@ -372,12 +373,12 @@ def obligations(tier):
             obs.append(Obligation(f'reward-{rn}-{H}x{W}', mk_reward(rn, r, H, W, small, False), dict(component=rn, H=H, W=W)))
         for tn, t in LOCAL_TERMS.items():
             obs.append(Obligation(f'termination-{tn}-{H}x{W}', mk_reward(tn, t, H, W, small, True), dict(component=tn, H=H, W=W)))
-    for (H, W) in ([(1, 1), (1, 2), (2, 2)] if q else [(1, 1), (1, 2), (2, 2), (2, 3)]):
+    for (H, W) in ([(1, 1), (1, 2), (2, 2)] if q else [(1, 1), (1, 2), (2, 2), (1, 3), (3, 1)]):
         obs.append(Obligation(f'copy-{H}x{W}', mk_copy(H, W), dict(H=H, W=W, alphabet=[e[0] for e in COPY9])))
-    for (H, W) in ([(1, 2), (2, 2)] if q else [(1, 2), (2, 2), (2, 3)]):
+    for (H, W) in ([(1, 2), (2, 2)] if q else [(1, 2), (2, 2), (1, 3), (3, 1)]):
         obs.append(Obligation(f'hash-history-{H}x{W}', mk_hash_history(H, W), dict(H=H, W=W)))
     for kind in ('manhattan', 'euclidean', 'proportional', 'shortest_path', 'memory'):
-        for (H, W) in ([(2, 2)] if q else [(2, 2), (2, 3)]):
+        for (H, W) in ([(2, 2)] if q else ([(2, 2)] if kind == 'memory' else [(2, 2), (2, 3)])):
             obs.append(Obligation(f'scanning-reward-{kind}-{H}x{W}', mk_scanning_reward(kind, H, W), dict(component=kind, H=H, W=W)))
     obs.append(Obligation('history-dijkstra', h_history_dijkstra))
     obs.append(Obligation('history-rays', h_history_rays))
